@@ -99,6 +99,13 @@ def node_src(n):
                 for e in r['exceptions']) + ')')
         if r.get('use_default'):
             lines.append('    use_default = True')
+    if n.get('factory'):
+        # node objects of this class have to be made by its default_factory (module_loading.get_instance honours it)
+        lines.append('    @classmethod')
+        lines.append('    def default_factory(cls, *args, **kwargs):')
+        lines.append('        obj = cls(*args, **kwargs)')
+        lines.append('        obj._rv_factory = True')
+        lines.append('        return obj')
     if n.get('has_default', True):
         lines.append('    def get_default(self, **kwargs):')
         lines.append('        return rt.default(self, self.name, kwargs)')
@@ -122,7 +129,9 @@ def node_src(n):
         else:
             params.append('additional_data: t.Optional[t.Any] = _M')
             names.append('additional_data')
-    sig = ', '.join(['self'] + params + ['**kwargs'])
+    kwonly = [f'{pname}=_M' for pname in n.get('unannotated_kwonly', [])]     # C16 defect: a keyword-only parameter without annotation
+    names += list(n.get('unannotated_kwonly', []))
+    sig = ', '.join(['self'] + params + (['*'] + kwonly if kwonly else []) + ['**kwargs'])
     packed = ', '.join(f'{p}={p}' for p in names)
     call = f'rt.pack(kwargs{", " + packed if packed else ""})'
     body_id = 'self.name' if nm != 'none' else repr(nid)
